@@ -56,6 +56,11 @@ pub struct Collector {
     pub caps_hit: Mutex<Vec<String>>,
     pub exhaustive: Mutex<bool>,
     pub machinery_errors: Mutex<Vec<String>>,
+    /// the explicit-state view of the E1 sweeps: distinct abstract builder states (option tuples incl. setter order)
+    /// reached, setter/build calls executed on real objects, traces judged against the reference model
+    pub builder_states: Mutex<HashSet<u64>>,
+    pub builder_transitions: AtomicU64,
+    pub builder_traces: AtomicU64,
 }
 
 const MAX_STORED_VIOLATIONS: usize = 2000;
@@ -78,6 +83,9 @@ impl Collector {
             caps_hit: Mutex::new(vec![]),
             exhaustive: Mutex::new(true),
             machinery_errors: Mutex::new(vec![]),
+            builder_states: Mutex::new(HashSet::new()),
+            builder_transitions: AtomicU64::new(0),
+            builder_traces: AtomicU64::new(0),
         }
     }
     pub fn set_rule(&self, r: &str) {
@@ -334,6 +342,12 @@ pub fn finish(ctx: &Ctx, col: &Collector, wall_s: f64) -> Finish {
     cov.insert("exhaustive".into(), json!(*col.exhaustive.lock().unwrap()));
     cov.insert("spaces".into(), Value::Array(col.spaces.lock().unwrap().clone()));
     cov.insert("caps_hit".into(), json!(col.caps_hit.lock().unwrap().clone()));
+    let bt = col.builder_traces.load(Ordering::Relaxed);
+    if bt > 0 && col.level != "model_checking" {
+        cov.insert("builder_model".into(), json!({
+            "what": "the E1 sweeps seen as explicit-state exploration of the builder: model state = option tuple (mode, level, version, mask, setter order), one transition per setter call and per build(), every trace executed on a real QRBuilder and judged against the reference model",
+            "states": col.builder_states.lock().unwrap().len(), "transitions": col.builder_transitions.load(Ordering::Relaxed), "traces_validated_against_impl": bt}));
+    }
     cov.insert("skipped_subject_panics".into(), json!(skipped));
     cov.insert("violation_keys".into(), json!(by_key.iter().map(|(k, (_, c))| json!({"key": k, "cases": c})).collect::<Vec<_>>()));
     for (k, v) in col.extra.lock().unwrap().iter() {
